@@ -117,6 +117,10 @@ TNext ==
               \* evaluates to a value of the same kind that prints the same again
               /\ Judge(e.kind \in PrintableKinds /\ e.kind2 = e.kind /\ e.out2 = e.out1, <<[k |-> e.kind, out |-> e.out1]>>)
               /\ last' = [call |-> "roundtrip"] /\ UNCHANGED <<calc, sess, run, today>>
+         [] e.ev = "ui" ->
+              \* C17: the highlight tokens of one evaluated line (n characters; lex = spans the renderer wrote)
+              /\ Judge(UiOk(e.n, e.toks, e.lex), <<[k |-> "ui", defects |-> UiDefects(e.n, e.toks, e.lex)]>>)
+              /\ last' = [call |-> "ui"] /\ UNCHANGED <<calc, sess, run, today>>
          [] e.ev = "session_new" -> NewSession(e.s) /\ bad' = bad
          [] e.ev = "set_language" -> SetLanguage(e.s, e.lang) /\ bad' = bad
          [] e.ev = "set_text" -> SetText(e.s, e.lines) /\ bad' = bad
